@@ -30,6 +30,11 @@ func VerifC05Tags() {
 	w := vrtRoot() + "/w"
 	v := "x" + vrtString("v", vrtParam("VL", 1), "ab")
 	where := vrtChoice("base", 4) // 0 same file, 1 other file, 2 other file + chain there, 3 same file -> other file
+	if vrtChoice("nullBase", 2) == 1 {
+		// the base is declared with nothing in it (`b:`): nothing is inherited, and no `extends` is left either
+		c05NullBase(where == 1 || where == 2)
+		return
+	}
 	tag := []string{"!reset", "!override"}[vrtChoice("tag", 2)]
 	attr := []string{"command", "ports", "environment", "labels"}[vrtChoice("attr", 4)]
 	root := map[string]any{"image": "base", "command": []any{"sleep", v}, "ports": []any{"8080:80"},
@@ -102,5 +107,34 @@ func VerifC05Tags() {
 	case "labels":
 		kv, _ := c04KV(s["labels"])
 		vrtAssert("override-replaces-inherited", len(kv) == 1 && kv["n"] == v)
+	}
+}
+
+func c05NullBase(otherFile bool) {
+	w := vrtRoot() + "/w"
+	own := map[string]any{"image": "own", "hostname": "h"}
+	var main map[string]any
+	if otherFile {
+		vrtYamlFile(w+"/common/base.yaml", map[string]any{"services": map[string]any{"b": nil, "ok": map[string]any{"image": "i"}}})
+		own["extends"] = map[string]any{"file": "common/base.yaml", "service": "b"}
+		main = map[string]any{"services": map[string]any{"s": own}}
+	} else {
+		own["extends"] = map[string]any{"service": "b"}
+		main = map[string]any{"services": map[string]any{"s": own, "b": nil, "t": map[string]any{"image": "i", "extends": "s"}}}
+	}
+	m, err := tcLoad(nil, func(o *Options) { o.SkipValidation = true }, main)
+	vrtObserve("err", err != nil)
+	if err != nil {
+		// a service without content may also be refused: an error is an acceptable outcome
+		return
+	}
+	s := tcSvc(m, "s")
+	_, has := s["extends"]
+	vrtAssert("no-extends-left-with-a-null-base", !has)
+	vrtAssert("own-attributes-kept-with-a-null-base", s["image"] == any("own") && s["hostname"] == any("h"))
+	if !otherFile {
+		t := tcSvc(m, "t")
+		_, has := t["extends"]
+		vrtAssert("no-extends-left-with-a-null-base", !has)
 	}
 }
